@@ -19,10 +19,14 @@ import (
 
 // C14Event is one step of a C14 history.
 type C14Event struct {
-	Op  string `json:"op"`            // inv body time check mine txstep
+	Op  string `json:"op"`            // inv body time check mine minewin txstep
 	Src int    `json:"src,omitempty"` // 0 trusted, 1..k untrusted
 	Txs []int  `json:"txs,omitempty"`
 	Ms  int    `json:"ms,omitempty"`
+	// minewin: like mine, but the block is processed by its own goroutine which is held at its K-th
+	// storage / fetcher operation while the connections in Chk get activity (0 = trusted ping)
+	K   int   `json:"k,omitempty"`
+	Chk []int `json:"chk,omitempty"`
 }
 
 // C14Scenario is a complete C14 case.
@@ -44,7 +48,7 @@ func c14Run(sc *C14Scenario) (v *nodeViolation, flags map[string]bool) {
 	fetch := newStubFetcher()
 	specs := make([]TxSpec, sc.NTx)
 	for i := range specs {
-		specs[i] = TxSpec{Ins: []TxInSpec{{Fund: 20 + i}}, Rel: i % 3 - 1}
+		specs[i] = TxSpec{Ins: []TxInSpec{{Fund: 20 + i}}, Rel: i%3 - 1}
 	}
 	txs := txUniverse(specs, fetch)
 	idOf := map[bitcoin.Hash32]int{}
@@ -68,6 +72,11 @@ func c14Run(sc *C14Scenario) (v *nodeViolation, flags map[string]bool) {
 		u.verify(sn)
 		uns = append(uns, u)
 	}
+	gate := &holdGate{Role: "block"}
+	sn.store.SetGate(gate.hook)
+	gf := &gatedFetcher{fetch, gate.hook}
+	sn.node.outputFetcher = gf
+	sn.blockCtx = roleCtx(sn.ctx, "block")
 	var clock time.Duration
 	var log []c14Request
 	seenTrusted := len(sn.peer.txRequests)
@@ -100,8 +109,8 @@ func c14Run(sc *C14Scenario) (v *nodeViolation, flags map[string]bool) {
 	// model
 	lastReq := map[int]time.Duration{}
 	hasReq := map[int]bool{}
-	arrived := map[int]bool{}   // body processed
-	confirmed := map[int]bool{} // in a processed block
+	arrived := map[int]bool{}     // body processed
+	confirmed := map[int]bool{}   // in a processed block
 	reannounced := map[int]bool{} // announced again after its confirmation
 	tracked := map[int]map[int]bool{}
 	for s := 0; s <= len(uns); s++ {
@@ -266,7 +275,7 @@ func c14Run(sc *C14Scenario) (v *nodeViolation, flags map[string]bool) {
 			if v := judgeFresh(fresh, where); v != nil {
 				return v, flags
 			}
-		case "mine":
+		case "mine", "minewin":
 			var body []*wire.MsgTx
 			var list []int
 			seen := map[int]bool{}
@@ -289,6 +298,66 @@ func c14Run(sc *C14Scenario) (v *nodeViolation, flags map[string]bool) {
 					return v, flags
 				}
 			}
+			if ev.Op == "minewin" {
+				// the block thread is held somewhere inside ProcessBlock while connections are active
+				gate.arm(ev.K)
+				done := make(chan struct{})
+				go func() {
+					defer close(done)
+					defer func() {
+						if r := recover(); r != nil {
+							sn.blockThreadDead = fmt.Sprintf("panic: %v", r)
+						}
+					}()
+					sn.blockStep()
+				}()
+				if gate.waitHeld(done, 300*time.Millisecond) {
+					flags["block-held"] = true
+					actDone := make(chan *nodeViolation, 1)
+					go func() {
+						var wv *nodeViolation
+						defer func() { actDone <- wv }()
+						for _, src := range ev.Chk {
+							if src > len(uns) {
+								continue
+							}
+							if src == 0 {
+								_ = sn.node.check(sn.ctx)
+							} else if u := uns[src-1]; !u.closed {
+								_ = u.un.check(sn.ctx)
+							}
+						}
+					}()
+					select {
+					case <-actDone:
+					case <-time.After(250 * time.Millisecond):
+						flags["activity-blocked-on-block-thread"] = true
+						gate.release()
+						<-actDone
+						gate = &holdGate{Role: "block"} // released: fresh gate for later events
+						sn.store.SetGate(gate.hook)
+						gf.gate = gate.hook
+					}
+					if !flags["activity-blocked-on-block-thread"] {
+						// what the connections were asked while the block was in the middle of processing
+						sn.drain()
+						for _, u := range uns {
+							u.drain(sn)
+						}
+						if v := judgeFresh(collect(), where+" [while the block was being processed]"); v != nil {
+							gate.release()
+							<-done
+							return v, flags
+						}
+						gate.release()
+					}
+				}
+				<-done
+				sn.drain()
+				for _, u := range uns {
+					u.drain(sn)
+				}
+			}
 			for sn.blockStep() {
 			}
 			if sn.blockThreadDead != "" {
@@ -298,7 +367,7 @@ func c14Run(sc *C14Scenario) (v *nodeViolation, flags map[string]bool) {
 				for _, i := range list {
 					confirmed[i] = true
 					reannounced[i] = false
-					delete(hasReq, i) // a confirmed txid is forgotten, including its request record
+					delete(hasReq, i)  // a confirmed txid is forgotten, including its request record
 					delete(arrived, i) // ... and its body: only a new announcement may lead to a new request
 					for s := range tracked {
 						delete(tracked[s], i)
@@ -354,6 +423,13 @@ func genC14(t *rapid.T) *C14Scenario {
 			for k, c := 0, rapid.IntRange(1, 3).Draw(t, "cnt"); k < c; k++ {
 				ev.Txs = append(ev.Txs, rapid.IntRange(0, sc.NTx-1).Draw(t, "tx"))
 			}
+			if rapid.IntRange(0, 3).Draw(t, "win") == 0 {
+				ev.Op = "minewin"
+				ev.K = rapid.IntRange(0, 12).Draw(t, "k")
+				for k, c := 0, rapid.IntRange(1, 3).Draw(t, "nchk"); k < c; k++ {
+					ev.Chk = append(ev.Chk, rapid.IntRange(0, sc.Untrusted).Draw(t, "chk"))
+				}
+			}
 		}
 		sc.Events = append(sc.Events, ev)
 	}
@@ -364,7 +440,7 @@ func c14Nontrivial(f map[string]bool) bool {
 	return f["announced-while-requested"] && (f["window-expiry"] || f["delivery"])
 }
 
-const c14Rule = "step-mode histories with the real trusted and untrusted inventory handlers and trackers (real UntrustedNode objects, 1..3 of them) over one mempool: inv of overlapping txid sets on any connection, bodies from any connection, logical time steps (0.5 s, 2.9 s, 3.1 s, 7 s via the time-shift hook), activity/check on a connection, blocks confirming txid sets; oracle over the per-connection getdata(tx) log with logical time stamps: first request issued, no second request inside the 3 s window, none after the body was processed or confirmed, re-request on the next activity of a connection that announced it; non-trivial = at least two connections announce one txid and a window expiry or a delivery occurs; distinct by scenario hash"
+const c14Rule = "step-mode histories with the real trusted and untrusted inventory handlers and trackers (real UntrustedNode objects, 1..3 of them) over one mempool: inv of overlapping txid sets on any connection, bodies from any connection, logical time steps (0.5 s, 2.9 s, 3.1 s, 7 s via the time-shift hook), activity/check on a connection, blocks confirming txid sets, and blocks whose processing goroutine is held at a drawn storage/fetcher operation while connections get activity; oracle over the per-connection getdata(tx) log with logical time stamps: first request issued, no second request inside the 3 s window, none after the body was processed or confirmed, re-request on the next activity of a connection that announced it; non-trivial = at least two connections announce one txid and a window expiry or a delivery occurs; distinct by scenario hash"
 
 func TestC14Requests(t *testing.T) {
 	rep := verifkit.NewReport("C14", "TestC14Requests", c14Rule)
